@@ -444,6 +444,355 @@ def stage_w_sets(rep, rng, n):
     return common.compare_model(rep, 'W:sets', calls, res, dec)
 
 
+# ------------------------------------------------------------------------------------------------ direct laws (step 4)
+import ntpath  # noqa: E402
+
+
+def swap(s):
+    return s.translate({ord('/'): '\\', ord('\\'): '/'})
+
+
+def walk_escapes(depth, s):
+    """Independent oracle: does the walk over the raw components step above the root?"""
+    for c in re.split(r'[/\\]', s):
+        if c in ('', '.'):
+            continue
+        if c == '..':
+            if depth == 0:
+                return True
+            depth -= 1
+        else:
+            depth += 1
+    return False
+
+
+def rel_comps_of(p):
+    return [c for c in p.suffix.split('/') if c]
+
+
+def is_ancestor(a, b):
+    ca, cb = rel_comps_of(a), rel_comps_of(b)
+    return a.root == b.root and cb[:len(ca)] == ca
+
+
+def classes_of(p=None, paths=(), extra=()):
+    """Finding classes of a failing input (predicates on the input, see findings.d/C12.json)."""
+    out = list(extra)
+    ps = list(paths) + ([p] if p is not None else [])
+    for q in ps:
+        drive, rest = ntpath.splitdrive(q.suffix)
+        if q.root.name != 'absolute' and re.match(r'^[^/]:', q.suffix):
+            out.append('relative-suffix-drive-like')
+        if q.suffix:
+            dd, dr = ntpath.splitdrive(posixpath.dirname(q.suffix))
+            if dd and dr == '':
+                out.append('parent-is-bare-drive')
+        if drive and rest in ('', '/'):
+            out.append('parent-is-bare-drive')
+        if re.match(r'^[^/]:', posixpath.basename(q.suffix)):
+            out.append('basename-drive-like')
+        if rest.startswith('//'):
+            out.append('double-slash-after-drive')
+    return tuple(out)
+
+
+def same(a, b, with_dir=False):
+    return a == b and hash(a) == hash(b) and (not with_dir or bool(a.directory) == bool(b.directory))
+
+
+ORACLE_FORMS = [('rel', '', 50), ('dotslash', './', 6), ('dotdotslash', '../', 5), ('abs', '/', 14), ('absbs', '\\', 4),
+                ('drive', 'C:/', 8), ('drivebs', 'c:\\', 4), ('unc', '//srv/share/', 4), ('driverel', 'C:', 2)]
+
+
+def gen_oracle_string(rng, rep):
+    name, pre, _w = wchoice(rng, ORACLE_FORMS)
+    rep.count('oform:' + name)
+    s = pre + gen_relstring(rng, rep)
+    return 'x' + s if s.startswith('~') else s
+
+
+def check_path_laws(rep, cls, roots, s, ri, dd, dr, p, stats):
+    """All single-path laws on an accepted path p = cls(s, roots[ri], dd, dr). Returns number of failures."""
+    bad = 0
+    root = roots[ri]
+    info = {'cls': cls.__name__, 's': s, 'root': ri, 'destdir': dd, 'directory': dr}
+
+    def fail(law, detail, extra=()):
+        nonlocal bad
+        bad += 1
+        stats['fail:' + law] = stats.get('fail:' + law, 0) + 1
+        rep.fail('%s law broken by %s(%r, %s): %s' % (law, cls.__name__, s, root.name, detail),
+                 dict(info, law=law, detail=detail), classes=classes_of(p, extra=extra))
+
+    def attempt(law, f, extra=()):
+        try:
+            return f()
+        except (ValueError, KeyError) as e:
+            fail(law, 'raised %s: %s' % (type(e).__name__, e), extra)
+            return None
+
+    # L1 normalised + idempotent
+    drive, rest = ntpath.splitdrive(p.suffix)
+    comps = rest.lstrip('/').split('/') if rest.lstrip('/') else []
+    if '\\' in p.suffix or any(c in ('', '.', '..') for c in comps):
+        fail('normalised', 'suffix %r has a special component' % p.suffix)
+    if rest.startswith('//'):
+        fail('normalised', 'suffix %r keeps a double slash after the drive' % p.suffix)
+    if p.root.name == 'absolute' and not rest.startswith('/'):
+        fail('normalised', 'absolute path with non-absolute suffix %r' % p.suffix, ('absolute-suffix-not-absolute',))
+    if p.root.name != 'absolute' and rest.startswith('/'):
+        fail('normalised', 'relative root with absolute suffix %r' % p.suffix)
+    q = attempt('idempotent', lambda: cls(p.suffix, p.root, p.destdir, p.directory))
+    if q is not None and not same(q, p, True):
+        fail('idempotent', 'rebuilt as %r' % (q.suffix,))
+    # L3 separator symmetry
+    try:
+        q = cls(swap(s), root, dd, dr)
+    except ValueError:
+        q = None
+    if q is None or not same(q, p, True):
+        fail('sep_agnostic', 'swapped separators give %r' % (q and q.suffix,))
+    # L2/L8 realising against a base directory is ordinary path joining; the result stays inside
+    if p.root.name != 'absolute' and not drive:
+        base = '/R/x y/z'
+        real = p.string({p.root: base})
+        if cls.__name__ == 'WindowsPath':
+            real = real.replace('\\', '/')
+        want = posixpath.normpath(posixpath.join(base, s.replace('\\', '/')))
+        if real != want:
+            fail('realize_join', 'string() = %r but normpath(join(base, s)) = %r' % (real, want))
+        if not (real == base or real.startswith(base + '/')):
+            fail('confined', 'realised %r is outside %r' % (real, base))
+        if p.realize({p.root: '$(v)'}, localize=False) != ('$(v)/' + p.suffix if p.suffix else '$(v)'):
+            fail('realize_join', 'realize() = %r' % (p.realize({p.root: '$(v)'}, localize=False),))
+    # L4 parent / append / basename, L10 splitleaf
+    if p.suffix:
+        par = attempt('parent_append', p.parent)
+        if par is not None:
+            q = attempt('parent_append', lambda: par.append(p.basename()))
+            if q is not None and not same(q, p):
+                fail('parent_append', 'parent().append(basename()) = %r' % (q.suffix,))
+            if not par.directory:
+                fail('parent_append', 'parent is not a directory')
+            sl = p.splitleaf()
+            if not (same(sl[0], par, True) and sl[1] == p.basename()):
+                fail('splitleaf', 'splitleaf differs from (parent, basename)')
+    # L6 json
+    q = attempt('json_rt', lambda: cls.from_json(p.to_json()))
+    if q is not None and not same(q, p, True):
+        fail('json_rt', 'from_json(to_json()) = %r dir=%r' % (q.suffix, q.directory))
+    # L9 stripext / addext
+    st = attempt('stripext_addext', p.stripext)
+    if st is not None:
+        q = attempt('stripext_addext', lambda: st.addext(p.ext()))
+        if q is not None and not same(q, p, True):
+            fail('stripext_addext', 'stripext().addext(ext()) = %r' % (q.suffix,))
+        if p.ext() and '/' in p.ext():
+            fail('stripext_addext', 'ext %r contains a separator' % p.ext())
+    return bad
+
+
+def stage_oracle_paths(rep, rng, n, strings=()):
+    P, W, roots, DestDir, BasePath, bpath = impl()
+    stats = {}
+    bad = 0
+    cases = [(s, r, None, None) for s in CORPUS_STRINGS for r in (0, 2, 5)
+             if not s.startswith('//') or s.startswith('//s/h/')]
+    cases += [(s, r, None, None) for s in strings for r in (0, 2)]
+    for _ in range(n):
+        r = rng.choice([0, 0, 1, 1, 2, 2, 3, 4, 5, 6, 7, 8, 9])
+        dd = rng.choice([None, None, None, True, False])
+        dr = rng.choice([None, None, True, False])
+        cases.append((gen_oracle_string(rng, rep), r, dd, dr))
+    for s, ri, dd, dr in cases:
+        if s.startswith('~'):
+            continue
+        if re.match(r'^[/\\]{2}', s) and not re.match(r'^[/\\]{2}(srv[/\\]share|s[/\\]h)[/\\]', s):
+            stats['skipped-malformed-unc'] = stats.get('skipped-malformed-unc', 0) + 1
+            continue        # malformed UNC prefixes are exercised by the W-correspondence only
+        reldrive = re.match(r'^[^/\\]:([^/\\]|$)', s) is not None
+        drive = re.match(r'^[^/\\]:', s) is not None
+        isabs = s[:1] in ('/', '\\') or (drive and not reldrive)
+        isdir = re.split(r'[/\\]', s)[-1] in ('', '.', '..')
+        expect_reject = (reldrive or (dd and ri < 3 and ri != 2) or (dr is False and isdir) or
+                         (not isabs and ri == 2) or (not isabs and walk_escapes(0, s)))
+        for cls in (P, W):
+            rep.case('o:%s:%r:%d:%r:%r' % (cls.__name__[0], s, ri, dd, dr), nontrivial_string(s))
+            try:
+                p = cls(s, roots[ri], dd, dr)
+            except ValueError:
+                p = None
+            key = 'accepted' if p is not None else 'rejected'
+            stats[key] = stats.get(key, 0) + 1
+            if (p is None) != bool(expect_reject):
+                bad += 1
+                rep.fail('confinement/acceptance: %s(%r, %s, destdir=%r, directory=%r) %s but the walk oracle says %s' % (
+                    cls.__name__, s, roots[ri].name, dd, dr, 'rejected' if p is None else 'accepted',
+                    'reject' if expect_reject else 'accept'),
+                    {'cls': cls.__name__, 's': s, 'root': ri, 'destdir': dd, 'directory': dr, 'law': 'confined'},
+                    classes=classes_of(p))
+            if p is not None:
+                bad += check_path_laws(rep, cls, roots, s, ri, dd, dr, p, stats)
+    rep.stage('oracle:path-laws', cases=len(cases) * 2, failures=bad, **stats)
+    return bad
+
+
+PAIR_CORPUS = [('C:/', '..', 2), ('C:/a', '../..', 2), ('C:/a', '..', 2), ('//srv/share/', '..', 2), ('//srv/share/a', '../..', 2),
+               ('/', '..', 2), ('/a', '../../b', 2), ('a/b', '..', 0), ('a/b', '../..', 0), ('a/b', '../../..', 0),
+               ('a/b', '..\\..\\..', 1), ('', '..', 0), ('', '.', 0), ('', '', 0), ('a', './c:d', 0), ('a', 'c:d', 0),
+               ('a/b', '../b/../../a/b/c', 3), ('a/b', 'c/../../../a/./b/', 5), ('x', '/abs', 0), ('x', 'C:/abs', 0)]
+
+
+def stage_oracle_pairs(rep, rng, n):
+    """Nested roots, append confinement and relpath/append on pairs."""
+    P, W, roots, DestDir, BasePath, bpath = impl()
+    bad = 0
+    todo = list(PAIR_CORPUS)
+    for _ in range(n):
+        ri = rng.choice([0, 0, 1, 1, 3, 5, 2])
+        form = [f for f in ORACLE_FORMS if (f[0] in ('abs', 'drive', 'unc') if ri == 2 else f[0] in ('rel', 'dotslash'))]
+        name, pre, _w = wchoice(rng, form)
+        todo.append((pre + gen_relstring(rng, rep), gen_oracle_string(rng, rep), ri))
+    for bs, s, ri in todo:
+        if bs.startswith('~') or s.startswith('~'):
+            continue
+        for cls in (P, W):
+            try:
+                base = cls(bs, roots[ri])
+            except ValueError:
+                continue
+            rep.case('op:%s:%r:%r:%d' % (cls.__name__[0], bs, s, ri), True)
+            info = {'cls': cls.__name__, 'base': bs, 's': s, 'root': ri, 'law': 'pairs'}
+            reldrive = re.match(r'^[^/\\]:([^/\\]|$)', s) is not None
+            isabs = s[:1] in ('/', '\\') or (re.match(r'^[^/\\]:', s) is not None and not reldrive)
+            bdrive, brest = ntpath.splitdrive(base.suffix)
+            joined = posixpath.normpath(posixpath.join(base.suffix, s.replace('\\', '/')))
+            jcls = ('relative-suffix-drive-like',) if (base.root.name != 'absolute' and re.match(r'^[^/]:', joined)) else ()
+            depth = len([c for c in brest.split('/') if c])
+            results = {}
+            for how, f in (('ctor', lambda: cls(s, base)), ('append', lambda: base.append(s))):
+                try:
+                    results[how] = f()
+                except ValueError:
+                    results[how] = None
+            for how, q in results.items():
+                if isabs or reldrive:
+                    continue
+                if base.root.name == 'absolute':
+                    # absolute base: dotdot at the top stays at the top; the result must stay absolute
+                    if q is not None and not ntpath.splitdrive(q.suffix)[1].startswith('/'):
+                        bad += 1
+                        rep.fail('nested root (%s): %s %r + %r gives the non-absolute suffix %r under the absolute root' % (
+                            how, cls.__name__, bs, s, q.suffix), dict(info, how=how),
+                            classes=('dotdot-above-drive',) if bdrive else classes_of(base))
+                    continue
+                esc = walk_escapes(depth, s)
+                if (q is None) != esc:
+                    bad += 1
+                    rep.fail('nested root (%s): %s base %r + %r %s but the walk oracle says %s' % (
+                        how, cls.__name__, bs, s, 'rejected' if q is None else 'accepted', 'reject' if esc else 'accept'),
+                        dict(info, how=how), classes=classes_of(base, extra=jcls))
+                if q is not None:
+                    want = posixpath.normpath(posixpath.join('/R', base.suffix, s.replace('\\', '/')))
+                    got = q.string({q.root: '/R'}).replace('\\', '/')
+                    if got != want:
+                        bad += 1
+                        rep.fail('nested root (%s): %r + %r realises to %r, ordinary joining gives %r' % (how, bs, s, got, want),
+                                 dict(info, how=how), classes=classes_of(base, extra=jcls))
+            a, b = results['ctor'], results['append']
+            if a is not None and b is not None and not isabs and not same(a, b):
+                bad += 1
+                rep.fail('Path(s, base) %r differs from base.append(s) %r' % (a.suffix, b.suffix), info,
+                         classes=classes_of(base, extra=jcls))
+            # relpath / append round trip between two paths under one non-absolute root
+            if base.root.name != 'absolute':
+                try:
+                    other = cls(s, roots[ri])
+                except ValueError:
+                    other = None
+                if other is not None and other.root == base.root:
+                    for x, y in ((base, other), (other, base)):
+                        try:
+                            rel = x.relpath(y)
+                            back = y.append(rel)
+                            ok = same(back, x)
+                            det = 'relpath=%r, append gives %r' % (rel, back.suffix)
+                        except ValueError as e:
+                            ok, det = False, 'raised ValueError: %s' % e
+                        if not ok:
+                            bad += 1
+                            rcls = ('relpath-drive-like',) if re.match(
+                                r'^[^/]:', posixpath.relpath('/' + x.suffix, '/' + y.suffix)) else ()
+                            rep.fail('relpath/append: %s x=%r y=%r under %s: %s' % (
+                                cls.__name__, x.suffix, y.suffix, roots[ri].name, det), info,
+                                classes=classes_of(paths=(x, y), extra=rcls))
+                        pre = x.relpath(y, prefix='$ORIGIN', localize=False)
+                        if not (pre == '$ORIGIN' or pre.startswith('$ORIGIN/')):
+                            bad += 1
+                            rep.fail('relpath with prefix gives %r' % pre, info)
+    rep.stage('oracle:pairs', failures=bad)
+    return bad
+
+
+def stage_oracle_sets(rep, rng, n):
+    P, W, roots, DestDir, BasePath, bpath = impl()
+    bad = 0
+    for _ in range(n):
+        es = gen_path_list(rng, rep)
+        for cls in (P, W):
+            try:
+                ps = [py_eval(cls, roots, e) for e in es]
+            except ValueError:
+                continue
+            rep.case('os:%s:%s' % (cls.__name__[0], json.dumps(es)), len(ps) >= 2)
+            info = {'cls': cls.__name__, 'exprs': es, 'law': 'sets'}
+            sameroot = bool(ps) and all(p.root == ps[0].root for p in ps)
+            extra = []
+            if sameroot and ps[0].root.name == 'absolute':
+                first = set((rel_comps_of(p) or [None])[0] for p in ps)
+                if len(first) > 1 or None in first:
+                    extra.append('commonprefix-absolute-root-only')
+            if sameroot and all(p.suffix == '' for p in ps):
+                extra.append('commonprefix-all-root-dir')
+            try:
+                cp = bpath.commonprefix(ps)
+                err = None
+            except (ValueError, IndexError) as e:
+                cp, err = None, e
+            if err is not None or (cp is None) != (not sameroot):
+                bad += 1
+                rep.fail('commonprefix(%r) %s' % ([p.suffix for p in ps], 'raised %r' % err if err else 'returned None'),
+                         info, classes=classes_of(paths=ps, extra=extra))
+            elif cp is not None:
+                comps = [rel_comps_of(p) for p in ps]
+                k = 0
+                while all(len(c) > k for c in comps) and all(c[k] == comps[0][k] for c in comps):
+                    k += 1
+                if not all(is_ancestor(cp, p) for p in ps) or len(rel_comps_of(cp)) != k:
+                    bad += 1
+                    rep.fail('commonprefix(%r) = %r is not the longest common ancestor' % ([p.suffix for p in ps], cp.suffix),
+                             info, classes=classes_of(paths=ps, extra=extra))
+            ut = bpath.uniquetrees(ps)
+            uextra = []
+            vals = {}
+            for p in ps:
+                vals.setdefault(p.root.value, set()).add(type(p.root).__name__)
+            if any(len(v) > 1 for v in vals.values()):
+                uextra.append('uniquetrees-root-value-collision')
+            if any(p.suffix == '/' for p in ps) and len(ps) > 1:
+                uextra.append('uniquetrees-filesystem-root')
+            ok = (all(any(u is p for p in ps) for u in ut) and
+                  all(any(is_ancestor(u, p) for u in ut) for p in ps) and
+                  all(not is_ancestor(u, v) for u in ut for v in ut if u is not v))
+            if not ok:
+                bad += 1
+                rep.fail('uniquetrees(%r) = %r is not a minimal covering subset' % (
+                    [(p.root.name, p.suffix) for p in ps], [(p.root.name, p.suffix) for p in ut]),
+                    info, classes=classes_of(extra=uextra))
+    rep.stage('oracle:sets', failures=bad)
+    return bad
+
+
 def run(rep):
     rng = random.Random(rep.seed)
     thorough = rep.tier == 'thorough'
@@ -453,7 +802,11 @@ def run(rep):
     dis += stage_w_eval(rep, rng, n)
     dis += stage_w_rel(rep, rng, n // 3)
     dis += stage_w_sets(rep, rng, n // 3)
-    if dis:
+    mult = 10 if dis else 1
+    found = stage_oracle_paths(rep, rng, n * mult, sweep_exprs() if thorough else ())
+    found += stage_oracle_pairs(rep, rng, n // 2 * mult)
+    found += stage_oracle_sets(rep, rng, n // 3 * mult)
+    if dis and not found:
         i, call, iv, mv = dis[0]
         rep.fail('W:%s - model and implementation disagree (%d cases), e.g. %r: impl %r, model %r' % (
             call[0], len(dis), call[1], iv, mv),
